@@ -571,6 +571,33 @@ func unchangedFlagVars(info *types.Info, loop *ast.RangeStmt, elem types.Object)
 	return out
 }
 
+// skipReasonKey: the `continue` is in the then-branch of `if _, ok := <map>[elem]; ok` (the loop element itself is the key).
+func skipReasonKey(info *types.Info, body *ast.BlockStmt, br *ast.BranchStmt, elem types.Object) bool {
+	path := pathTo(body, br)
+	for i := len(path) - 2; i >= 0; i-- {
+		ifs, ok := path[i].(*ast.IfStmt)
+		if !ok {
+			continue
+		}
+		id, isID := unparen(ifs.Cond).(*ast.Ident)
+		as, isAs := ifs.Init.(*ast.AssignStmt)
+		if !isID || !isAs || len(as.Lhs) != 2 || len(as.Rhs) != 1 || objOf(info, as.Lhs[1]) != info.Uses[id] || path[i+1] != ast.Node(ifs.Body) {
+			return false
+		}
+		ix, isIx := unparen(as.Rhs[0]).(*ast.IndexExpr)
+		if !isIx || objOf(info, ix.Index) != elem {
+			return false
+		}
+		tv := info.Types[ix.X]
+		if tv.Type == nil {
+			return false
+		}
+		_, isMap := tv.Type.Underlying().(*types.Map)
+		return isMap
+	}
+	return false
+}
+
 // skipReason classifies the condition guarding a `continue` in the entries loop; "" if not recognised.
 func skipReason(info *types.Info, body *ast.BlockStmt, br *ast.BranchStmt, elem types.Object, unchanged map[types.Object]bool) string {
 	path := pathTo(body, br)
